@@ -31,6 +31,7 @@ def run(repo, tier):
     # the rescale rule describes the deterministic eval-mode function: a model left in training mode draws fresh RReLU slopes / dropout
     # masks for the example half and the reference half of one batch
     out += dls.refgrad_rule(repo)
+    out += [x for x in dls.hooks_rule(repo) if "skipped only" in x.role]     # a skipped supported layer gets the ordinary gradient
     from .c07 import eval_rule
     out += eval_rule(repo, "deep_lift_shap.deep_lift_shap")
     return out
